@@ -268,14 +268,14 @@ def specs(tier):
     out = []
     for roles in (["F"], ["V"], ["R"], ["V", "F"], ["R", "F"]):
         nm = "".join(roles)
-        out.append(Spec(f"step_{nm}_n{N}", build(N, roles), cfg=cfg(N, rounds="inject"), unwind=N + 3, timeout=600,
+        out.append(Spec(f"step_{nm}_n{N}", build(N, roles), cfg=cfg(N, rounds="inject"), unwind=N + 3, timeout=3000,
                         desc=f"inductive step, roles {' || '.join(roles)} (V validation worker, R executing worker, F finality step) from an arbitrary INV state"
                              + ("; second role runs atomically at any conflicting visible operation of the first (context bound A|B|A)" if len(roles) == 2 else ""),
                         bounds={"n": N, "locations": 1, "threads": len(roles), "memory_model": "SC", "context_switches": 2 if len(roles) == 2 else 0}))
     if tier == "thorough":
         for roles in (["F", "R"], ["F", "V"]):
             nm = "".join(roles)
-            out.append(Spec(f"step_{nm}_n{N}", build(N, roles), cfg=cfg(N, rounds="inject"), unwind=N + 3, timeout=5400,
+            out.append(Spec(f"step_{nm}_n{N}", build(N, roles), cfg=cfg(N, rounds="inject"), unwind=N + 3, timeout=14000,
                             desc=f"roles {' || '.join(roles)}; second role atomic at any conflicting visible operation of the first",
                             bounds={"n": N, "locations": 1, "threads": 2, "context_switches": 2}))
     if tier == "experimental":
